@@ -7,6 +7,14 @@
 //! exit 0: property held on everything explored; exit 1: VIOLATION line printed;
 //! exit 2: harness error.
 
+/// harness output: goes to the real stdout even while fd 1 is silenced for simulated code
+#[macro_export]
+macro_rules! out {
+    ($($arg:tt)*) => {
+        verif_rt::process::emit(&format!($($arg)*))
+    };
+}
+
 mod c05;
 mod c08;
 mod c09;
@@ -67,7 +75,7 @@ pub unsafe extern "C" fn getrandom(buf: *mut u8, len: usize, flags: u32) -> isiz
 }
 
 fn usage() -> ! {
-    println!("usage: sim <C05|C08|C09|C19|C20> <quick|thorough> | sim replay <file> | sim selftest-determinism [runs]");
+    out!("usage: sim <C05|C08|C09|C19|C20> <quick|thorough> | sim replay <file> | sim selftest-determinism [runs]");
     std::process::exit(2);
 }
 
@@ -77,6 +85,10 @@ fn main() {
         usage();
     }
     let _saved_stderr = verif_rt::process::silence_stderr();
+    // processes that execute simulated code keep their own output apart from what that code prints
+    if matches!(args[1].as_str(), "--worker" | "--report" | "replay" | "selftest-determinism") {
+        verif_rt::process::silence_stdout();
+    }
     verif_rt::process::install_dispatcher();
     let code = match args[1].as_str() {
         "--worker" => worker(&args[2..]),
@@ -138,19 +150,19 @@ fn replay(path: &str) -> i32 {
     let text = match std::fs::read_to_string(path) {
         Ok(t) => t,
         Err(e) => {
-            println!("HARNESS-ERROR: cannot read {path}: {e}");
+            out!("HARNESS-ERROR: cannot read {path}: {e}");
             return 2;
         }
     };
     let rf: ReplayFile = match serde_json::from_str(&text) {
         Ok(r) => r,
         Err(e) => {
-            println!("HARNESS-ERROR: cannot parse {path}: {e}");
+            out!("HARNESS-ERROR: cannot parse {path}: {e}");
             return 2;
         }
     };
     with_scenario!(rf.property.as_str(), S => replay_file::<S>(&rf, path), {
-        println!("HARNESS-ERROR: unknown property {} in {path}", rf.property);
+        out!("HARNESS-ERROR: unknown property {} in {path}", rf.property);
         2
     })
 }
@@ -168,7 +180,7 @@ fn selftest_determinism(runs: u64) -> i32 {
         with_scenario!(prop, S => lines.extend(det_lines::<S>(seed, runs)), ());
     }
     for l in lines {
-        println!("{l}");
+        out!("{l}");
     }
     0
 }
